@@ -41,6 +41,10 @@ def warm_start(
         # logging.critical(f"Can not open warm start file: {warm_start_file}")
         raise SystemExit(1) from err
 
+    # The other state variables found on the file are restored as well
+    # (left empty they get out of step with the identifiers at the next release)
+    wvars = wvars.union(var for var in state.variables if var in f.variables)
+
     # Use last record in file
     pstart = f.variables["particle_count"][:-1].sum()
     pcount = f.variables["particle_count"][-1]
@@ -87,6 +91,8 @@ def warm_start(
             state[var] = values
         else:
             state.variables[var] = values
+
+    f.close()
 
     # # Instance variables with default
     # if "alive" not in wvars:
